@@ -30,8 +30,9 @@ SYM = [
     ("ref", ["a"]), ("ref", ["b"]), ("ref", ["1"]), ("ref", ["2"]), ("ref", ["a", "a"]), ("ref", ["zz"]),
     ("def", "a", ""), ("def", "b", ""), ("def", "1", ""), ("def", "2", ""), ("def", "a", "q"), ("def", "b", "l"), ("def", "u", ""),
     ("ref", ["b", "a"]), ("ref", ["c", "a", "c"]), ("def", "c", ""),
+    ("refd", ["a"]), ("refd", ["b", "a"]),  # references inside a directive body (rendered by a nested parse)
 ]
-SYM_SMALL = [0, 1, 2, 4, 6, 7, 8, 12, 13]
+SYM_SMALL = [0, 1, 2, 4, 6, 7, 8, 12, 13, 16, 17]
 BULLETS = "-*+"
 
 
@@ -40,6 +41,8 @@ def text_of(seq):
     for i, s in enumerate(seq):
         if s[0] == "ref":
             out.append(f"P{i} " + " ".join(f"[^{l}]" for l in s[1]))
+        elif s[0] == "refd":
+            out.append("```{note}\n" + f"P{i} " + " ".join(f"[^{l}]" for l in s[1]) + "\n```")
         else:
             body = f"[^{s[1]}]: D{i}{s[1]}"
             if s[2] == "q":
@@ -59,7 +62,7 @@ def model(seq, sort):
             else:
                 seen.add(s[1])
                 defs.append((s[1], i))
-    refs = [(l, i) for i, s in enumerate(seq) if s[0] == "ref" for l in s[1]]
+    refs = [(l, i) for i, s in enumerate(seq) if s[0] in ("ref", "refd") for l in s[1]]
     manual = {l for l, _ in defs if l.isdigit()}
     autos = [l for l, _ in defs if not l.isdigit()]
     order = []
@@ -86,6 +89,8 @@ def model_structure(seq, sort, trans, num, defs):
     for i, s in enumerate(seq):
         if s[0] == "ref":
             out.append(("paragraph",))
+        elif s[0] == "refd":
+            out.append(("note",))
         elif s[2] == "q":
             out.append(("block_quote",))
         elif s[2] == "l":
@@ -189,7 +194,7 @@ def evaluate(seq, sort, trans, text, doc, warn, front_end):
         paras = {p.astext().split()[0]: p for p in doc.findall(nodes.paragraph) if p.astext().startswith("P")}
         backrefs = {l: [] for l in num}
         for i, s in enumerate(seq):
-            if s[0] != "ref":
+            if s[0] not in ("ref", "refd"):
                 continue
             p = paras.get(f"P{i}")
             if p is None:
@@ -230,7 +235,7 @@ def evaluate(seq, sort, trans, text, doc, warn, front_end):
         # structure
         ms = model_structure(seq, sort, trans, num, defs)
         os_ = structure(doc)
-        fn_only = all(t[0] in ("fn", "tr") for t in os_) or not any(s[0] == "ref" or s[2] in "ql" for s in seq)
+        fn_only = all(t[0] in ("fn", "tr") for t in os_) or not any(s[0] in ("ref", "refd") or s[2] in "ql" for s in seq)
         if sort and set(onum) == set(num):
             if fn_only:
                 ms = [t for t in ms if t[0] != "tr"]
@@ -257,8 +262,8 @@ class SphinxFootnoteSystem(System):
     def __init__(self, tier):
         super().__init__(tier)
         self.n = 3 if tier == "quick" else 4
-        self.symbols = list(range(13))
-        self.description = f"all sequences of <= {self.n} blocks over 13 footnote symbols x footnote_sort x footnote_transition through an in-process Sphinx application (read + post-transforms)"
+        self.symbols = list(range(13)) + [16]
+        self.description = f"all sequences of <= {self.n} blocks over 14 footnote symbols x footnote_sort x footnote_transition through an in-process Sphinx application (read + post-transforms)"
 
     def prepare(self, ctx):
         self.root = ctx.scratch / "c11sx"
@@ -297,5 +302,5 @@ class SphinxFootnoteSystem(System):
 
 def systems(tier):
     if tier == "quick":
-        return [FootnoteSystem(tier, "arrangements", list(range(13)), 3), FootnoteSystem(tier, "arrangements-deep", SYM_SMALL, 4), SphinxFootnoteSystem(tier)]
-    return [FootnoteSystem(tier, "arrangements", list(range(16)), 4), FootnoteSystem(tier, "arrangements-deep", SYM_SMALL, 6), SphinxFootnoteSystem(tier)]
+        return [FootnoteSystem(tier, "arrangements", list(range(13)) + [16, 17], 3), FootnoteSystem(tier, "arrangements-deep", SYM_SMALL, 4), SphinxFootnoteSystem(tier)]
+    return [FootnoteSystem(tier, "arrangements", list(range(18)), 4), FootnoteSystem(tier, "arrangements-deep", SYM_SMALL, 6), SphinxFootnoteSystem(tier)]
